@@ -91,6 +91,12 @@ ASSUME_TRACE = [
 ]
 
 
+# Traces of the `part*` family (objective NaN on part of the box) are judged on the control plane only: pyhms uses NaN
+# as its own "not evaluated yet" marker and orders two NaN individuals by a coin flip (problem.py worse_than), so
+# clauses that compare fitness values, best individuals or report texts are not meaningful for them.
+CONTROL_PLANE = {"C03", "C05", "C06", "C07", "C08", "C18", "RunCrashed"}
+
+
 def _corpus_violations(pid: str, tier: str):
     from .mod_corpus import corpus_stage
     cs = corpus_stage(tier)
@@ -101,6 +107,8 @@ def _corpus_violations(pid: str, tier: str):
         for clause, idx in r["viol"]:
             if cont is not None and idx <= cont:
                 continue        # the prefix of a continued snapshot trace is the live trace itself
+            if r["name"].startswith("part") and clause.split("_")[0] not in CONTROL_PLANE:
+                continue        # NaN-valued objective: only the control-plane clauses are meaningful (see CONTROL_PLANE)
             per.setdefault(clause, []).append(idx)
         if cont is not None and pid == "C19":
             for clause, idxs in per.items():
